@@ -23,7 +23,11 @@ RULE = ("queries `q V E r` (all of reach/unreach/idom/doms/domtree/df/loops/loop
         "pointing into the loop) with every vertex as root; thorough only: every digraph on 1-3 vertices with every "
         "root and every digraph on 4 vertices with roots 0 and 3; edit histories of 1-40 operations "
         "iv/ie/re/rv/ru (30/35/10/15/10 %, half of the histories 25/55/8/8/4 % so that larger graphs get built) over a pool of 4-8 ids (some >= 2^32) with all four views dumped and "
-        "cross-checked after every operation. distinct = distinct request line; non-trivial = the graph has at least "
+        "cross-checked after every operation; after every operation every public per-vertex query (has_vertex, vertex, "
+        "edges_in, edges_out, successors, predecessors, successor_indices, predecessor_indices) is asked for every id "
+        "the history mentions anywhere plus one it never mentions, has_edge/edge for every mentioned pair (Q=/X= "
+        "sections: an id must answer as present everywhere or as vertex-not-found everywhere), and at the end the "
+        "graph must be == a graph rebuilt from its own vertices()/edges(). distinct = distinct request line; non-trivial = the graph has at least "
         "one cycle or a vertex with two predecessors; a history is non-trivial when it has >= 3 operations")
 TRUSTED = [
     "specification: path-based definitions of reachability / dominance / frontier / natural loop / reducibility and "
@@ -120,6 +124,12 @@ def _history_where(c):
         a = impl[i] if i < len(impl) else ""
         b = ref[i] if i < len(ref) else ""
         if a != b:
+            if " Q=!" in a:
+                return "per-vertex-queries"
+            if " X=!" in a:
+                return "per-edge-queries"
+            if a.startswith("eq-rebuilt"):
+                return a
             tok = (a.split(" ", 1)[0] if a else "missing")
             return re.sub(r"\d+", "N", tok)
     return ""
